@@ -49,7 +49,7 @@ EXPLANATION = (
 ASSUMPTIONS = [
     "frozen exception table for math/builtin callables used by #expr (math.log: ValueError, math.exp/pow: OverflowError, ...)",
     "functions whose only failure mode is network I/O (#property, #statements, wikidata.*) are outside the property's quantifier",
-    "isdecimal() implies int() succeeds for strings of fewer than 4300 digits (CPython's int-string limit); longer digit strings are a recorded limitation",
+    "CPython's int-string limit is 4300 digits (sys.int_max_str_digits default); float() has no such limit",
     "parser functions are reached with args == () for `{{#name}}` (read off expand_recurse)",
 ]
 PFN = "src/wikitextprocessor/parserfns.py"
@@ -222,7 +222,17 @@ def rule_r2(ctx, cg, scope) -> RuleResult:
                 rr.ok(dotted, label + " under ValueError handler", {"fn": dotted, "site": label, "guard": "try/except ValueError"})
                 return
             if ("isdecimal", et) in facts:
-                rr.ok(dotted, label + " after isdecimal()", {"fn": dotted, "site": label, "guard": et + ".isdecimal()"})
+                from ..core.guards import bounded_digits
+                if node.func.id == "float" or bounded_digits(facts, et):
+                    rr.ok(dotted, label + " after isdecimal()", {"fn": dotted, "site": label, "guard": et + ".isdecimal()"})
+                else:
+                    f_ = Finding("C05.R2", _relfile(ctx, dotted), dotted, label + " after isdecimal() without a length bound",
+                                 "isdecimal() does not imply that int() succeeds: CPython refuses to convert a decimal string of more than 4300 "
+                                 "digits (sys.int_max_str_digits) and raises ValueError, which no enclosing handler catches here", node.lineno)
+                    if ctx._c05_in_scope(dotted):
+                        rr.bad(f_)
+                    else:
+                        rr.informational.append({"outside_expansion_closure": dotted, "site": label, "line": node.lineno})
                 return
             if isinstance(e, ast.Call) and unparse(e.func).endswith(".group") and e.args and isinstance(e.args[0], ast.Constant):
                 pat = _callback_pattern(ctx, dotted)
@@ -1118,12 +1128,89 @@ def rule_r12(ctx) -> RuleResult:
                   "the depth limit and the loop detector no longer see the frames of the enclosing expansion", min_instances=8)
 
 
+_FS_METHODS = {"is_file", "exists", "is_dir", "open", "read_text", "read_bytes", "stat", "lstat", "iterdir", "glob", "resolve", "is_symlink"}
+_FS_FUNCS = {"open", "os.stat", "os.path.exists", "os.path.isfile", "os.path.isdir", "os.listdir", "os.path.getsize"}
+_OSERROR_COVER = {"OSError", "IOError", "EnvironmentError", "Exception", "BaseException"}
+
+
+def rule_r13(ctx, cg: CallGraph, scope: dict) -> RuleResult:
+    """A path built from text that a page supplies (the module name of `#invoke`/`require`/`mw.loadData`) can be something the
+    file system refuses to look up at all -- longer than NAME_MAX, an embedded NUL after a future change of the sanitiser --
+    and then `Path.is_file()` / `open()` raise OSError (only ENOENT-like errors are swallowed by pathlib).  On the expansion
+    path such a probe has to sit under a handler that covers OSError, or the exception leaves expand() instead of the in-band
+    error element.  Genuine defect of the pinned tree: `{{#invoke:<5000 letters>|f}}` raised OSError(ENAMETOOLONG) out of
+    expand() (F28)."""
+    rr = RuleResult("C05.R13", "file-system probes of a path made from page text are under an OSError handler", min_instances=2)
+    for dotted, top in scope.items():
+        m = ctx.index.mod(dotted.split(".")[0])
+        for fn in [top] + [n for n in ast.walk(top) if isinstance(n, (ast.FunctionDef, ast.AsyncFunctionDef)) and n is not top]:
+            params = {a.arg for a in fn.args.args + fn.args.kwonlyargs} - {"self", "ctx", "wtp", "cls"}
+            if not params:
+                continue
+            # names that depend on a parameter (forward propagation over plain assignments, loop targets and augmented assignments)
+            dep = set(params)
+            changed = True
+            while changed:
+                changed = False
+                for n in walk_no_nested(fn):
+                    tg = val = None
+                    if isinstance(n, ast.Assign):
+                        tg, val = n.targets, n.value
+                    elif isinstance(n, ast.AugAssign):
+                        tg, val = [n.target], n.value
+                    elif isinstance(n, ast.AnnAssign) and n.value is not None:
+                        tg, val = [n.target], n.value
+                    if tg is None:
+                        continue
+                    if any(isinstance(x, ast.Name) and x.id in dep for x in ast.walk(val)):
+                        for t in tg:
+                            for x in ast.walk(t):
+                                if isinstance(x, ast.Name) and x.id not in dep:
+                                    dep.add(x.id)
+                                    changed = True
+            parents = {c: p_ for p_ in ast.walk(fn) for c in ast.iter_child_nodes(p_)}
+            for c in walk_no_nested(fn):
+                if not isinstance(c, ast.Call):
+                    continue
+                recv = None
+                if isinstance(c.func, ast.Attribute) and c.func.attr in _FS_METHODS:
+                    recv = c.func.value
+                elif unparse(c.func) in _FS_FUNCS and c.args:
+                    recv = c.args[0]
+                if recv is None or not any(isinstance(x, ast.Name) and x.id in dep for x in ast.walk(recv)):
+                    continue
+                covered = False
+                n = c
+                while n in parents and n is not fn:
+                    par = parents[n]
+                    if isinstance(par, ast.Try) and any(n is b or any(n is x for x in ast.walk(b)) for b in par.body):
+                        for h in par.handlers:
+                            names = [unparse(e) for e in (h.type.elts if isinstance(h.type, ast.Tuple) else [h.type])] if h.type is not None else ["BaseException"]
+                            if any(x.split(".")[-1] in _OSERROR_COVER for x in names):
+                                covered = True
+                    n = par
+                ctx.touched(dotted, m.relpath)
+                label = "{}@{}".format(unparse(c)[:50], c.lineno)
+                if covered:
+                    rr.ok(dotted, label + " under an OSError handler", {"fn": dotted, "probe": unparse(c)[:60]})
+                else:
+                    f = Finding("C05.R13", m.relpath, dotted, unparse(c)[:70],
+                                "this file-system call is made on a path that depends on a parameter ({}) and no enclosing handler covers OSError: "
+                                "a name the file system refuses (too long, ...) leaves expand() as an exception".format(
+                                    ", ".join(sorted(x.id for x in ast.walk(recv) if isinstance(x, ast.Name) and x.id in dep))), c.lineno)
+                    if getattr(ctx, "_c05_in_scope", lambda d: True)(dotted):
+                        rr.bad(f)
+                    else:
+                        rr.informational.append({"outside_scope": dotted, "probe": unparse(c)[:60]})
+    return rr
+
+
 def run(ctx) -> list:
     cg = CallGraph(ctx.index)
     sf = SqlFacts(ctx.index)
     scope = _scope(ctx, cg)
     results = [rule_r1(ctx, cg), rule_r2(ctx, cg, scope), rule_r3(ctx), rule_r4(ctx, cg, scope), rule_r5(ctx, cg, sf),
-            rule_r6(ctx), rule_r7(ctx, cg), rule_r8(ctx, cg), rule_r9(ctx), rule_r10(ctx), rule_r11(ctx), rule_r12(ctx)]
+            rule_r6(ctx), rule_r7(ctx, cg), rule_r8(ctx, cg), rule_r9(ctx), rule_r10(ctx), rule_r11(ctx), rule_r12(ctx), rule_r13(ctx, cg, scope)]
     if ctx.thorough:
         from ..core.cgcheck import crosscheck
 
